@@ -3,8 +3,7 @@
  * contracts: thread_set_state/set_cpu/unset_cpu (proved on the real thread.c in
  * harness/c04_thread.c) and cpu_update/cpu_add_thread/cpu_remove_thread/
  * loom_get_cpu (ASSUMED shape, see the plan's trusted list).
- * (Each REACH costs a full JSON trace of 30-60 KB structs in the runner: only the
- * outcomes the property talks about carry one.) */
+ */
 #include "prelude.h"
 #include "c04_thread_spec.h"
 #include "loom.h"
@@ -13,24 +12,44 @@
 /* ======================= assumed contracts (cpu.c, loom.c) ======================= */
 unsigned g_cpu_fails;      /* number of cpu.c callees that returned non-zero */
 struct cpu *g_got_cpu;     /* last result of loom_get_cpu */
+/* what the handler told cpu.c, and what the thread looked like at that moment
+ * (cpu_update recomputes the occupancy of the CPU from the threads' CURRENT
+ * states and refuses an oversubscribed physical CPU: it must run after the
+ * state change, on the thread's CPU) */
+unsigned g_cpu_calls;        /* number of cpu.c calls */
+int g_cpu_op;                /* last one: 1 cpu_update, 2 cpu_add_thread, 3 cpu_remove_thread */
+struct cpu *g_cpu_last;      /* its cpu argument */
+int g_cpu_st;                /* state of the event's thread when it was called */
+struct thread *g_cur_th;     /* the event's thread (bound by the handler contracts) */
 #define CPU_FAILED (g_cpu_fails != __CPROVER_old(g_cpu_fails))
+#define CPU_TOLD(op, cpu, st) (g_cpu_calls == __CPROVER_old(g_cpu_calls) + 1 && g_cpu_op == (op) && g_cpu_last == (cpu) && g_cpu_st == (int)(st))
+#define CPU_LOG_FRAME g_cpu_calls, g_cpu_op, g_cpu_last, g_cpu_st
+#define CPU_LOG_POST(op, cpu) (g_cpu_calls == __CPROVER_old(g_cpu_calls) + 1 && g_cpu_op == (op) && g_cpu_last == (cpu) && g_cpu_st == (int) g_cur_th->state)
 #define CPU_CALL_POST ((RET == 0 || RET == -1) && \
 	(RET != 0) == (g_cpu_fails == __CPROVER_old(g_cpu_fails) + 1) && \
 	(RET == 0) == (g_cpu_fails == __CPROVER_old(g_cpu_fails)) && \
 	(RET == 0 ? g_err == __CPROVER_old(g_err) : g_err > __CPROVER_old(g_err)) && DIAG_POST(3))
+/* what cpu.c writes in a CPU: the counters, the list head, the unique-thread
+ * pointers, and (through chan_set) is_dirty/data.value of its five channels.
+ * (Listed cell by cell: a whole-array target `cpu->chan` is a 44 KB havoc.) */
+#define CPU_CH_FRAME(cpu, k) (cpu)->chan[k].is_dirty, (cpu)->chan[k].data.value
 #define CPU_FRAME(cpu) (cpu)->nthreads, (cpu)->nth_running, (cpu)->nth_active, (cpu)->threads, \
-	(cpu)->th_running, (cpu)->th_active, (cpu)->chan
+	(cpu)->th_running, (cpu)->th_active, CPU_CH_FRAME(cpu, CPU_CHAN_NRUN), CPU_CH_FRAME(cpu, CPU_CHAN_PID), \
+	CPU_CH_FRAME(cpu, CPU_CHAN_TID), CPU_CH_FRAME(cpu, CPU_CHAN_THRUN), CPU_CH_FRAME(cpu, CPU_CHAN_THACT)
 
 #define CPU_INDEX_KNOWN(loom, index) ((index) == -1 || ((index) >= 0 && (size_t)(index) < (loom)->ncpus))
 
 /* loom_get_cpu: NULL exactly for an index that is neither -1 (virtual CPU) nor a
- * logical index of the loom; otherwise some CPU object (modelled as a separate
- * object: the real one lives in loom->cpus_array / loom->vcpu). */
+ * logical index of the loom; otherwise the CPU object the loom holds for that
+ * index, named by the ghost g_loom_cpu (allocated by the caller's precondition:
+ * an is_fresh in this ensures costs 9 M clauses, measured; the real object lives
+ * in loom->cpus_array / loom->vcpu). */
+struct cpu *g_loom_cpu;
 struct cpu *cr_loom_get_cpu(struct loom *loom, int index)
 __CPROVER_requires(__CPROVER_is_fresh(loom, sizeof(*loom)))
 __CPROVER_assigns(g_got_cpu)
 __CPROVER_ensures((RET != NULL) == CPU_INDEX_KNOWN(loom, index))
-__CPROVER_ensures(RET == NULL || __CPROVER_is_fresh(RET, sizeof(struct cpu)))
+__CPROVER_ensures(RET == NULL || __CPROVER_pointer_equals(RET, g_loom_cpu))
 __CPROVER_ensures(g_got_cpu == RET)
 ;
 
@@ -38,22 +57,36 @@ __CPROVER_ensures(g_got_cpu == RET)
  * physical CPU, thread already/not in the list, channel refusal); touch only the
  * CPU's bookkeeping and channels and the thread's cpu-list links. */
 int cr_cpu_update(struct cpu *cpu)
-__CPROVER_requires(__CPROVER_is_fresh(cpu, sizeof(*cpu)) && CNT_PRE(2000000u) && g_cpu_fails < 2000000u)
-__CPROVER_assigns(CPU_FRAME(cpu), g_cpu_fails, DIAG_FRAME)
+__CPROVER_requires(__CPROVER_is_fresh(cpu, sizeof(*cpu)) && CNT_PRE(2000000u) && g_cpu_fails < 2000000u && g_cpu_calls < 2000000u)
+__CPROVER_assigns(CPU_FRAME(cpu), g_cpu_fails, CPU_LOG_FRAME, DIAG_FRAME)
+__CPROVER_ensures(CPU_LOG_POST(1, cpu))
 __CPROVER_ensures(CPU_CALL_POST)
 ;
 int cr_cpu_add_thread(struct cpu *cpu, struct thread *thread)
 __CPROVER_requires(__CPROVER_is_fresh(cpu, sizeof(*cpu)) && __CPROVER_is_fresh(thread, sizeof(*thread)))
-__CPROVER_requires(CNT_PRE(2000000u) && g_cpu_fails < 2000000u)
-__CPROVER_assigns(CPU_FRAME(cpu), thread->cpu_prev, thread->cpu_next, g_cpu_fails, DIAG_FRAME)
+__CPROVER_requires(CNT_PRE(2000000u) && g_cpu_fails < 2000000u && g_cpu_calls < 2000000u)
+__CPROVER_assigns(CPU_FRAME(cpu), thread->cpu_prev, thread->cpu_next, g_cpu_fails, CPU_LOG_FRAME, DIAG_FRAME)
+__CPROVER_ensures(CPU_LOG_POST(2, cpu))
 __CPROVER_ensures(CPU_CALL_POST)
 ;
 int cr_cpu_remove_thread(struct cpu *cpu, struct thread *thread)
 __CPROVER_requires(__CPROVER_is_fresh(cpu, sizeof(*cpu)) && __CPROVER_is_fresh(thread, sizeof(*thread)))
-__CPROVER_requires(CNT_PRE(2000000u) && g_cpu_fails < 2000000u)
-__CPROVER_assigns(CPU_FRAME(cpu), thread->cpu_prev, thread->cpu_next, g_cpu_fails, DIAG_FRAME)
+__CPROVER_requires(CNT_PRE(2000000u) && g_cpu_fails < 2000000u && g_cpu_calls < 2000000u)
+__CPROVER_assigns(CPU_FRAME(cpu), thread->cpu_prev, thread->cpu_next, g_cpu_fails, CPU_LOG_FRAME, DIAG_FRAME)
+__CPROVER_ensures(CPU_LOG_POST(3, cpu))
 __CPROVER_ensures(CPU_CALL_POST)
 ;
+
+/* Keep the symbols of the replaced callees alive even if an edit of event.c removes their
+ * last call: goto-instrument aborts ("function_symbol_exists") on a --replace-call-with-contract
+ * that names a vanished function, which would turn a violation into "undecided". */
+int (*const c04_keep_set_state)(struct thread *, enum thread_state) = thread_set_state;
+int (*const c04_keep_set_cpu)(struct thread *, struct cpu *) = thread_set_cpu;
+int (*const c04_keep_unset_cpu)(struct thread *) = thread_unset_cpu;
+int (*const c04_keep_cpu_update)(struct cpu *) = cpu_update;
+int (*const c04_keep_cpu_add)(struct cpu *, struct thread *) = cpu_add_thread;
+int (*const c04_keep_cpu_remove)(struct cpu *, struct thread *) = cpu_remove_thread;
+struct cpu *(*const c04_keep_get_cpu)(struct loom *, int) = loom_get_cpu;
 
 /* ======================= the state machine of the statement ======================= */
 /* legal(old state, event value) */
@@ -87,8 +120,8 @@ __CPROVER_ensures(CPU_CALL_POST)
 
 #define TH_PRE(th) (__CPROVER_is_fresh(th, sizeof(*(th))) && \
 	((th)->cpu == NULL || __CPROVER_is_fresh((th)->cpu, sizeof(struct cpu))) && \
-	TH_WF(th) && TH_CH_WF(th))
-#define CNT_PRE_H (CNT_PRE(1000000u) && g_cpu_fails < 1000000u)
+	TH_WF(th) && TH_CH_WF(th) && __CPROVER_pointer_equals(g_cur_th, th))
+#define CNT_PRE_H (CNT_PRE(1000000u) && g_cpu_fails < 1000000u && g_cpu_calls < 1000000u)
 
 #define OLDST __CPROVER_old(th->state)
 /* timeline clause after an accepted event that leaves the thread in `ns`:
@@ -104,7 +137,7 @@ __CPROVER_ensures(CPU_CALL_POST)
 	(th)->chan[TH_CHAN_TID].is_dirty, (th)->chan[TH_CHAN_TID].data.value
 #define TH_FRAME_CPU(th) (th)->cpu, (th)->cpu_prev, (th)->cpu_next, \
 	(th)->chan[TH_CHAN_CPU].is_dirty, (th)->chan[TH_CHAN_CPU].data.value
-#define GHOST_FRAME g_cb_calls, g_cb_fails, g_cpu_fails, DIAG_FRAME
+#define GHOST_FRAME g_cb_calls, g_cb_fails, g_cpu_fails, CPU_LOG_FRAME, DIAG_FRAME
 
 int w_state, w_v, w_cpu_index, w_has_cpu_h;
 unsigned long w_payload_size, w_ncpus;
@@ -122,6 +155,8 @@ __CPROVER_assigns(GHOST_FRAME) \
 __CPROVER_ensures(RET == 0 || RET == -1) \
 __CPROVER_ensures((RET == 0) == (LEGALP(OLDST) && !CB_FAILED && !CPU_FAILED)) \
 __CPROVER_ensures(RET != 0 || (th->state == NS && TH_WF(th) && TIMELINE(th, OLDST, NS))) \
+/* accepted: the thread's CPU was told, once, after the state change */ \
+__CPROVER_ensures(RET != 0 || CPU_TOLD(1, th->cpu, NS)) \
 __CPROVER_ensures(LEGALP(OLDST) || (g_cb_calls == __CPROVER_old(g_cb_calls) && !CB_FAILED && !CPU_FAILED)) \
 __CPROVER_ensures(RET == 0 ? g_err == __CPROVER_old(g_err) : g_err > __CPROVER_old(g_err)) \
 ;
@@ -170,34 +205,44 @@ __CPROVER_ensures((RET == 0) == (LEGAL_E(OLDST) && !CB_FAILED && !CPU_FAILED))
 /* accepted: dead, off its CPU, cpu channel nulled now */
 __CPROVER_ensures(RET != 0 || (th->state == TH_ST_DEAD && th->cpu == NULL && TH_WF(th) &&
 	TIMELINE(th, OLDST, TH_ST_DEAD) && CH_CPU(th)->is_dirty != 0))
+/* accepted: the thread was taken off its CPU, once, already dead */
+__CPROVER_ensures(RET != 0 || CPU_TOLD(3, __CPROVER_old(th->cpu), TH_ST_DEAD))
 __CPROVER_ensures(LEGAL_E(OLDST) || (g_cb_calls == __CPROVER_old(g_cb_calls) && !CB_FAILED && !CPU_FAILED))
 __CPROVER_ensures(RET == 0 ? g_err == __CPROVER_old(g_err) : g_err > __CPROVER_old(g_err))
 ;
 SIMPLE_HARNESS(pre_thread_end, LEGAL_E)
 
 /* ======================= execute ======================= */
+/* A payload of >= 4 bytes is addressed through `union ovni_ev_payload *` (16 bytes):
+ * CBMC checks the bounds of the whole union on `payload->i32[0]`, so the object
+ * is given the union's size; whether the stream really holds payload_size bytes
+ * there is the business of C19 (stream decoding), not of this handler. */
 #define EV_PRE(emu) (__CPROVER_is_fresh(emu, sizeof(*(emu))) && \
 	__CPROVER_is_fresh((emu)->ev, sizeof(struct emu_ev)) && \
 	__CPROVER_is_fresh((emu)->loom, sizeof(struct loom)) && \
-	(emu)->ev->payload_size <= 0x100000010UL && \
-	((emu)->ev->payload_size < 4 || __CPROVER_is_fresh((emu)->ev->payload, (emu)->ev->payload_size)))
+	((emu)->ev->payload_size < 4 || __CPROVER_is_fresh((emu)->ev->payload, sizeof(union ovni_ev_payload))))
+/* the CPU the loom returns: the thread's current CPU or another one */
+#define LOOM_CPU_PRE(th) (((th)->cpu != NULL && __CPROVER_pointer_equals(g_loom_cpu, (th)->cpu)) || \
+	__CPROVER_is_fresh(g_loom_cpu, sizeof(struct cpu)))
 #define PAYLOAD_OK(emu) ((emu)->ev->payload_size >= 4)
 /* the event names a CPU the loom has */
 #define CPU_OK(emu) (PAYLOAD_OK(emu) && CPU_INDEX_KNOWN((emu)->loom, (emu)->ev->payload->i32[0]))
 
 int c_pre_thread_execute(struct emu *emu, struct thread *th)
-__CPROVER_requires(EV_PRE(emu) && TH_PRE(th) && CNT_PRE_H)
+__CPROVER_requires(EV_PRE(emu) && TH_PRE(th) && LOOM_CPU_PRE(th) && CNT_PRE_H)
 __CPROVER_requires(WBIND(pre_thread_execute, w_state == (int) th->state && w_payload_size == emu->ev->payload_size &&
 	w_ncpus == emu->loom->ncpus && (emu->ev->payload_size < 4 || w_cpu_index == emu->ev->payload->i32[0])))
 __CPROVER_assigns(th->state != TH_ST_RUNNING && PAYLOAD_OK(emu): g_got_cpu)
-__CPROVER_assigns(th->state != TH_ST_RUNNING && CPU_OK(emu) && th->cpu == NULL: TH_FRAME_STATE(th), TH_FRAME_CPU(th))
+__CPROVER_assigns(th->state != TH_ST_RUNNING && CPU_OK(emu) && th->cpu == NULL: TH_FRAME_STATE(th), TH_FRAME_CPU(th), CPU_FRAME(g_loom_cpu))
 __CPROVER_assigns(GHOST_FRAME)
 __CPROVER_ensures(RET == 0 || RET == -1)
 /* accepted <=> not started, the payload names a CPU of the loom, no lower layer refused */
 __CPROVER_ensures((RET == 0) == (LEGAL_X(OLDST) && CPU_OK(emu) && !CB_FAILED && !CPU_FAILED))
 /* accepted: running on that CPU; state, tid and cpu channels written now */
-__CPROVER_ensures(RET != 0 || (th->state == TH_ST_RUNNING && th->cpu != NULL && th->cpu == g_got_cpu && TH_WF(th) &&
-	TIMELINE(th, OLDST, TH_ST_RUNNING) && CH_CPU(th)->is_dirty != 0))
+__CPROVER_ensures(RET != 0 || (th->state == TH_ST_RUNNING && th->cpu != NULL && th->cpu == g_got_cpu && TH_WF(th)))
+__CPROVER_ensures(RET != 0 || (TIMELINE(th, OLDST, TH_ST_RUNNING) && CH_CPU(th)->is_dirty != 0))
+/* accepted: the thread was added to that CPU, once, already running */
+__CPROVER_ensures(RET != 0 || CPU_TOLD(2, th->cpu, TH_ST_RUNNING))
 __CPROVER_ensures((LEGAL_X(OLDST) && CPU_OK(emu)) || (g_cb_calls == __CPROVER_old(g_cb_calls) && !CB_FAILED && !CPU_FAILED))
 __CPROVER_ensures(RET == 0 ? g_err == __CPROVER_old(g_err) : g_err > __CPROVER_old(g_err))
 ;
@@ -208,23 +253,28 @@ void h_pre_thread_execute(void)
 	ALL_WITNESS_OFF; WITNESS_ON(pre_thread_execute);
 	int r = pre_thread_execute(emu, th);
 	if (r == 0 && w_state == TH_ST_UNKNOWN) REACH("execute accepted on a thread that never ran");
-	if (r == 0 && w_state == TH_ST_DEAD) REACH("execute accepted on a dead thread");
+	if (r == 0 && w_state == TH_ST_DEAD) REACH("execute accepted on a dead thread (left open by the statement)");
 	if (r != 0 && w_state == TH_ST_PAUSED) REACH("execute of a paused thread refused");
-	if (r != 0 && w_state == TH_ST_UNKNOWN && w_payload_size >= 4 && w_cpu_index >= (long) w_ncpus) REACH("execute refused: unknown cpu index");
+	if (r != 0 && w_state == TH_ST_UNKNOWN && w_payload_size < 4) REACH("execute refused: missing payload");
 	if (r != 0 && w_state == TH_ST_UNKNOWN && w_payload_size >= 4 && w_cpu_index == -1) REACH("execute on the virtual cpu refused by a lower layer");
+	if (r != 0 && w_state == TH_ST_UNKNOWN && w_payload_size >= 4 && w_cpu_index >= 0 && (unsigned long) w_cpu_index >= w_ncpus) REACH("execute refused: unknown cpu index");
 }
 
 /* ======================= pre_thread (dispatch) ======================= */
 #define EVV(emu) ((emu)->ev->v)
 int c_pre_thread(struct emu *emu)
-__CPROVER_requires(EV_PRE(emu) && TH_PRE(emu->thread) && CNT_PRE_H)
+__CPROVER_requires(EV_PRE(emu) && TH_PRE(emu->thread) && LOOM_CPU_PRE(emu->thread) && CNT_PRE_H)
 __CPROVER_requires(WBIND(pre_thread, w_state == (int) emu->thread->state && w_v == emu->ev->v &&
 	w_payload_size == emu->ev->payload_size && w_ncpus == emu->loom->ncpus &&
 	(emu->ev->payload_size < 4 || w_cpu_index == emu->ev->payload->i32[0])))
 __CPROVER_assigns(EVV(emu) == 'x' && PAYLOAD_OK(emu): g_got_cpu)
 __CPROVER_assigns(LEGAL(EVV(emu), emu->thread->state) && (EVV(emu) != 'x' || CPU_OK(emu)): TH_FRAME_STATE(emu->thread))
 __CPROVER_assigns(LEGAL(EVV(emu), emu->thread->state) && (EVV(emu) == 'e' || (EVV(emu) == 'x' && CPU_OK(emu))): TH_FRAME_CPU(emu->thread))
-__CPROVER_assigns(LEGAL(EVV(emu), emu->thread->state) && EVV(emu) != 'x': CPU_FRAME(emu->thread->cpu))
+/* (the CPU objects as a whole here: DFCC's frame-inclusion checks are quadratic in the number of
+ * targets -- 55 s of symex with the cell-wise CPU_FRAME, 16 s so; the cell-wise frames are
+ * proved per handler in the groups above) */
+__CPROVER_assigns(LEGAL(EVV(emu), emu->thread->state) && EVV(emu) != 'x': __CPROVER_object_whole(emu->thread->cpu))
+__CPROVER_assigns(LEGAL(EVV(emu), emu->thread->state) && EVV(emu) == 'x' && CPU_OK(emu): __CPROVER_object_whole(g_loom_cpu))
 __CPROVER_assigns(GHOST_FRAME)
 __CPROVER_ensures(RET == 0 || RET == -1)
 /* the iff of the statement, with every other refusal cause named */
@@ -236,7 +286,11 @@ __CPROVER_ensures(EVV(emu) == 'C' || IS_FSM_EV(EVV(emu)) || RET == -1)
 __CPROVER_ensures(RET != 0 || !IS_FSM_EV(EVV(emu)) || (emu->thread->state == NEWST(EVV(emu)) && TH_WF(emu->thread) &&
 	TIMELINE(emu->thread, __CPROVER_old(emu->thread->state), NEWST(EVV(emu))) &&
 	(EVV(emu) != 'e' || emu->thread->cpu == NULL) && (EVV(emu) != 'x' || emu->thread->cpu == g_got_cpu)))
+/* ... and the CPU was told (update / add / remove) once, after the state change */
+__CPROVER_ensures(RET != 0 || !IS_FSM_EV(EVV(emu)) || CPU_TOLD(EVV(emu) == 'x' ? 2 : EVV(emu) == 'e' ? 3 : 1,
+	EVV(emu) == 'e' ? __CPROVER_old(emu->thread->cpu) : emu->thread->cpu, NEWST(EVV(emu))))
 /* create ('C') is accepted in any state and changes nothing (frame) */
+__CPROVER_ensures(EVV(emu) != 'C' || g_cpu_calls == __CPROVER_old(g_cpu_calls))
 __CPROVER_ensures(RET == 0 ? g_err == __CPROVER_old(g_err) : g_err > __CPROVER_old(g_err))
 ;
 
@@ -246,8 +300,10 @@ void h_pre_thread(void)
 	ALL_WITNESS_OFF; WITNESS_ON(pre_thread);
 	int r = pre_thread(emu);
 	if (r == 0 && w_v == 'x') REACH("OHx accepted");
-	if (r == 0 && w_v == 'w') REACH("OHw accepted");
 	if (r != 0 && w_v == 'c' && w_state == TH_ST_PAUSED) REACH("OHc on a paused thread refused");
-	if (r == 0 && w_v == 'C') REACH("OHC accepted");
 	if (r != 0 && !IS_FSM_EV(w_v)) REACH("unknown OH value refused");
+	if (r == 0 && w_v == 'C') REACH("OHC accepted");
+	if (r == 0 && w_v == 'w') REACH("OHw accepted");
+	if (r == 0 && w_v == 'e') REACH("OHe accepted");
+	if (r != 0 && w_v == 'r' && w_state == TH_ST_PAUSED) REACH("legal OHr refused by a lower layer");
 }
